@@ -94,6 +94,7 @@ func c09Alphabet(dates []string) []jr.Dir {
 }
 
 func c09Run(e *core.Env) {
+	e.ReserveTail()
 	drv := e.Driver()
 	type plan struct {
 		alpha []jr.Dir
@@ -134,6 +135,7 @@ func c09Run(e *core.Env) {
 		})
 		e.SetBound(fmt.Sprintf("journal_depth_alphabet%d", len(pl.alpha)), pl.n)
 	}
+	e.BeginTail()
 	if e.Take() {
 		// print sorts each day; whether that is properly ordered with the stages that read
 		// the day is decided by the race detector on free-running executions
